@@ -29,3 +29,32 @@ func runQueryOnText(ctx context.Context, text, query string) ([]string, error) {
 	defer q.Pull(true)
 	return lk.Drain(q)
 }
+
+// runQueryOnTextVals is runQueryOnText returning the values themselves.
+func runQueryOnTextVals(ctx context.Context, text, query string) ([]zed.Value, error) {
+	zctx := zed.NewContext()
+	seq, sset, err := compiler.Parse(query)
+	if err != nil {
+		return nil, err
+	}
+	r := zsonio.NewReader(zctx, strings.NewReader(text))
+	q, err := runtime.CompileQuery(ctx, zctx, compiler.NewCompiler(), seq, sset, []zio.Reader{r})
+	if err != nil {
+		return nil, err
+	}
+	defer q.Pull(true)
+	var out []zed.Value
+	for {
+		batch, err := q.Pull(false)
+		if err != nil {
+			return out, err
+		}
+		if batch == nil {
+			return out, nil
+		}
+		for _, v := range batch.Values() {
+			out = append(out, v.Copy())
+		}
+		batch.Unref()
+	}
+}
